@@ -224,6 +224,7 @@ Inductive chain_lt (buf : bytes) : Z -> option obj -> list xref -> Prop :=
 | clt_cons ub p px pt secs :
     (0 <= p < ub)%Z -> Z.to_N p <= Loader.blen buf ->
     xref_and_trailer buf (Z.to_N p) = SOk (px, pt) ->
+    dict_get pt K_XRefStm = None ->          (* no hybrid-reference section in the chain *)
     chain_lt buf p (dict_get pt Xref.K_Prev) secs ->
     chain_lt buf ub (Some (OInt p)) (px :: secs).
 
@@ -246,13 +247,13 @@ Lemma prev_loop_chain buf ub prev secs : chain_lt buf ub prev secs ->
   (forall q, In q seen -> (ub <= q)%Z) -> (length secs <= fuel)%nat -> dict_get t K_XRefStm = None ->
   prev_loop fuel buf x t prev seen = SOk (fold_left xref_merge secs x, t).
 Proof.
-  induction 1 as [ub prev Hn | ub p px pt secs Hp Hb Hx Hc IH]; intros fuel x t seen Hseen Hf Ht.
+  induction 1 as [ub prev Hn | ub p px pt secs Hp Hb Hx Hps Hc IH]; intros fuel x t seen Hseen Hf Ht.
   - cbn [fold_left]. destruct fuel; cbn [prev_loop]; destruct prev as [[]|]; try reflexivity; exfalso; eapply Hn; reflexivity.
   - destruct fuel as [|f]; [cbn [length] in Hf; lia|]. cbn [prev_loop].
     rewrite (existsb_seen p seen ub Hseen) by lia.
     replace (p <? 0)%Z with false by (symmetry; apply Z.ltb_ge; lia).
     replace (Loader.blen buf <? Z.to_N p) with false by (symmetry; apply N.ltb_ge; exact Hb).
-    cbn [orb]. rewrite Hx. rewrite Ht. rewrite (swap_remove_absent_get t K_XRefStm Ht).
+    cbn [orb]. rewrite Ht. cbn [merge_xref_stream]. rewrite Hx, Hps. cbn [merge_xref_stream]. rewrite (swap_remove_absent_get t K_XRefStm Ht).
     cbn [fold_left]. apply IH.
     + intros q [Hq|Hq]; [lia|]. specialize (Hseen q Hq). lia.
     + cbn [length] in Hf. lia.
@@ -396,6 +397,7 @@ Record good_file (F v m : bytes) (xs : N) (xt : xtype) (entries : Xref.xmap) (t 
   gf_tail : exists front, F = front ++ startxref_bytes xs /\ xs <= Loader.blen front /\ 25 < Loader.blen front /\ xs < 10 ^ 14;
   gf_chain : exists x0 t0 secs,
       x_entries (fold_left xref_merge secs x0) = entries /\ x_type x0 = xt /\ dict_swap_remove t0 Xref.K_Prev = t /\
+      dict_get t0 K_XRefStm = None /\
       forall rest, xref_and_trailer (F ++ rest) xs = SOk (x0, t0) /\
                    chain_lt (F ++ rest) (Z.of_N xs) (dict_get t0 Xref.K_Prev) secs;
   gf_no_stm : dict_get t K_XRefStm = None;
@@ -412,7 +414,7 @@ Definition loaded (v m : bytes) (entries : Xref.xmap) (t : dict) (objs : objmap)
 Theorem good_file_loads F v m xs xt entries t objs :
   good_file F v m xs xt entries t objs -> load F = LOk (loaded v m entries t objs) xt.
 Proof.
-  intros [[body Eh] Hve Hvu Hm [front [Et [Hxs [Hfr Hdig]]]] [x0 [t0 [secs [Hent [Hty [Ht Hch]]]]]] Hstm Henc Hsort Hkeys Hobjs].
+  intros [[body Eh] Hve Hvu Hm [front [Et [Hxs [Hfr Hdig]]]] [x0 [t0 [secs [Hent [Hty [Ht [Hstm0 Hch]]]]]]] Hstm Henc Hsort Hkeys Hobjs].
   destruct (Hch []) as [Hxt Hchain]. specialize (Hobjs []). rewrite app_nil_r in *.
   unfold load.
   assert (Hoff : pdf_offset F = 0) by (rewrite Eh; apply pdf_offset_header).
@@ -454,6 +456,7 @@ Theorem good_extend F v m xs xt entries t objs suffix front' xs' x0' t0' nobjs :
   xs' <= Loader.blen front' -> 25 < Loader.blen front' -> xs' < 10 ^ 14 -> Loader.blen F <= xs' ->
   (forall rest, xref_and_trailer ((F ++ suffix) ++ rest) xs' = SOk (x0', t0')) ->
   dict_get t0' Xref.K_Prev = Some (OInt (Z.of_N xs)) ->
+  dict_get t0' K_XRefStm = None ->
   dict_get (dict_swap_remove t0' Xref.K_Prev) K_XRefStm = None ->
   dict_has (dict_swap_remove t0' Xref.K_Prev) Loader.K_Encrypt = false ->
   xincr 0 (x_entries x0') -> Forall (fun ke => fst ke < u32_max) (x_entries x0') ->
@@ -462,8 +465,8 @@ Theorem good_extend F v m xs xt entries t objs suffix front' xs' x0' t0' nobjs :
   good_file (F ++ suffix) v m xs' (x_type x0') (fold_left xins (x_entries x0') entries)
             (dict_swap_remove t0' Xref.K_Prev) (overlay_objs objs nobjs).
 Proof.
-  intros [[body Eh] Hve Hvu Hm [front [Et [Hxs [Hfr Hdig]]]] [x0 [t0 [secs [Hent [Hty [Ht Hch]]]]]] Hstm Henc Hsort Hkeys Hobjs]
-         Etail Hxs' Hfr' Hdig' Hlen Hxt' Hprev Hstm' Henc' Hsort' Hkeys' Hnobjs Hgen.
+  intros [[body Eh] Hve Hvu Hm [front [Et [Hxs [Hfr Hdig]]]] [x0 [t0 [secs [Hent [Hty [Ht [Hstm0 Hch]]]]]]] Hstm Henc Hsort Hkeys Hobjs]
+         Etail Hxs' Hfr' Hdig' Hlen Hxt' Hprev Hstm0' Hstm' Henc' Hsort' Hkeys' Hnobjs Hgen.
   assert (HxsF : xs < Loader.blen F).
   { rewrite Et. unfold Loader.blen in *. rewrite app_length. unfold startxref_bytes. cbn [length]. lia. }
   constructor.
@@ -472,7 +475,7 @@ Proof.
   - exact Hvu.
   - exact Hm.
   - exists front'. repeat split; assumption.
-  - exists x0', t0', (x0 :: secs). split; [|split; [reflexivity | split; [reflexivity|]]].
+  - exists x0', t0', (x0 :: secs). split; [|split; [reflexivity | split; [reflexivity | split; [exact Hstm0'|]]]].
     + rewrite merge_is_overlay; [rewrite Hent; reflexivity | exact Hsort' | rewrite Hent; exact Hsort].
     + intro rest. split; [apply Hxt'|]. rewrite Hprev.
       destruct (Hch (suffix ++ rest)) as [Hx0 Hc0]. rewrite app_assoc in Hx0, Hc0.
@@ -480,6 +483,7 @@ Proof.
       * lia.
       * rewrite N2Z.id. unfold Loader.blen in *. rewrite !app_length. lia.
       * rewrite N2Z.id. exact Hx0.
+      * exact Hstm0.
       * exact Hc0.
   - exact Hstm'.
   - exact Henc'.
